@@ -113,6 +113,11 @@ pub fn prefs_for_reference(s: &mut Sess) -> Vec<(String, String)> {
     order_prefs_for_reference(&cur)
 }
 
+/// an expression of the seeded generator (sim/src/mml.rs), with no, some or all elements carrying author ids
+pub fn gen_expr(rng: &mut crate::rng::Rng) -> ExprRef {
+    ExprRef::Gen { seed: rng.next_u64() % 1_000_000, ids: *rng.pick(&[0u8, 0, 1, 2]) }
+}
+
 /// A (name, value) pair for an edit of a preference in prefs.yaml: always a value that is valid for that name
 /// (file contents are not validated by MathCAT; semantically wrong values in files are not what these checks are about)
 pub fn valid_file_pref(rng: &mut crate::rng::Rng) -> (String, String) {
